@@ -3,7 +3,7 @@
 # /repo and /verif stay usable meanwhile. The copy of /verif is taken from the working tree (not only committed files),
 # its harness is re-pointed at the scratch repository. Results: /verif/out/mutants.tsv (+ meta.json detected_by).
 set -u
-LAB=/tmp/mutlab
+LAB=${LAB:-/tmp/mutlab}
 mkdir -p $LAB
 if [ ! -d $LAB/repo ]; then git -C /repo worktree add -q --detach $LAB/repo HEAD; else git -C $LAB/repo checkout -q --detach $(git -C /repo rev-parse HEAD); git -C $LAB/repo checkout -q -- .; fi
 rsync -a --delete --exclude out --exclude .git /verif/ $LAB/verif/
